@@ -38,7 +38,10 @@ Inductive stmt :=
 | Label (l:nat) | Goto (l:nat)
 | Defer (b:block)
 | ConstIndex (len k:Z)                 (* local a: [len]integer; sink(a[k]) *)
-| ConstConv (t:nat) (v:Z)              (* local x: <type t> = v *)
+| ConstConv (t:nat) (v:Z) (viaconcept:bool)  (* the constant v converted to <type t> (declaration, assignment, return,
+                                           field, argument ...); viaconcept: it is the argument of a parameter typed by a
+                                           concept (overload / facultative / user concept) that suggests <type t> *)
+| ConstFrac (t:nat)                    (* a fractional constant converted to <type t> *)
 with block := BNil | BCons (id:nat) (s:stmt) (b:block)
 with cases := CNil | CCons (cid v:nat) (b:block) (cs:cases).   (* case v then b, printed on line cid *)
 
@@ -613,7 +616,8 @@ Definition is_inrange (bits:Z) (signed:bool) (v:Z) : bool := (ty_min bits signed
 Fixpoint rconst_stmt (s:stmt) {struct s} : bool :=
   match s with
   | ConstIndex len k => index_ok len k
-  | ConstConv t v => match type_info t with Some (b, sg) => fits b sg v | None => false end
+  | ConstConv t v _ => match type_info t with Some (b, sg) => fits b sg v | None => false end
+  | ConstFrac _ => false               (* a fractional value is representable in no integral type *)
   | Func _ _ b | Do b | While b | Repeat b | For b | Defer b => rconst_block b
   | If t e => rconst_block t && rconst_block e
   | Switch cs _ d => rconst_cases cs && rconst_block d
@@ -629,11 +633,16 @@ Fixpoint aconst_stmt (id:nat) (s:stmt) {struct s} : errs :=
   | ConstIndex len k =>
     if k <? 0 then [(id, KIndex)]
     else if negb (len =? 0) && (len <=? k) then [(id, KIndex)] else []
-  | ConstConv t v =>
-    match type_info t with
-    | Some (b, sg) => if is_inrange b sg v then [] else [(id, KRange)]
-    | None => [(id, KRange)]
-    end
+  | ConstConv t v viaconcept =>
+    (* visitor_Call converts an argument twice: against the declared parameter type (a concept only suggests
+       a concrete type, by TYPE) and then against the suggested type - the value check of a constant happens
+       only in that second conversion, which must be unconditional (scraped) *)
+    if viaconcept && negb gen_call_rechecks_suggested_type then []
+    else match type_info t with
+         | Some (b, sg) => if is_inrange b sg v then [] else [(id, KRange)]
+         | None => [(id, KRange)]
+         end
+  | ConstFrac _ => [(id, KRange)]
   | Func _ _ b | Do b | While b | Repeat b | For b | Defer b => aconst_block b
   | If t e => aconst_block t ++ aconst_block e
   | Switch cs _ d => aconst_cases cs ++ aconst_block d
